@@ -126,7 +126,7 @@ def distribution(recs):
 
 MANIFEST = {
  "engine": "lean-proof + whole runs + scripted schedules (hooks)",
- "text": "End-of-run lock protocol (controller program as data, Result's RWMutex with writer preference and nested read paths, the progress function's lock/rlock/rlock, Stop = cancel + wait): for every controller program obeying the locking discipline — f1's is checked by the kernel (C05_doTail_disciplined) — every reachable state in which the controller still has work lets some thread move without waiting for a timer (C05_no_deadlock; inductive invariant Inv, omega over Bool codes), every such move decreases a measure (C05_measure), and once the controller is past Stop the runner is gone for good (C05_runner_gone). The pool cannot strand sleepers at shutdown and is empty when terminated (C05_sleepers_woken, C05_pool_clean; from C02/C04's invariants), the runner is quiescent after Stop (C18). The pinned tree's wedge is a kernel-checked deadlock state (legacy_deadlock) replayed on the real Do through the hooks. Time: the two selects of Run.run as a timed model (Deadline) — triggering stops exactly at the earliest of max-duration less 10 ms, the trigger's own duration less 10 ms, cancellation and the limit (C05_deadline, C05_stop_le, C05_stop_earliest, C05_some_branch_fires), the wait is bounded by the completion timeout (C05_wait_bounded), a return that did not give up means everything in flight finished (C05_finished_unless_timeout) and giving up happens only after the full timeout (C05_gives_up_after_full_timeout). Tie: whole runs over modes x endings with goroutine diff and return-time bounds computed from the Deadline model; result.stress for the pre-Stop lock users.",
+ "text": "End-of-run lock protocol (controller program as data, Result's RWMutex with writer preference and nested read paths, the progress function's lock/rlock/rlock, Stop = cancel + wait): for every controller program obeying the locking discipline — f1's is checked by the kernel (C05_doTail_disciplined) — every reachable state in which the controller still has work lets some thread move without waiting for a timer (C05_no_deadlock; inductive invariant Inv, omega over Bool codes), every such move decreases a measure (C05_measure), and once the controller is past Stop the runner is gone for good (C05_runner_gone). The pool cannot strand sleepers at shutdown and is empty when terminated (C05_sleepers_woken, C05_pool_clean; from C02/C04's invariants), the runner is quiescent after Stop (C18). The pinned tree's wedge is a kernel-checked deadlock state (legacy_deadlock) replayed on the real Do through the hooks. Time: the two selects of Run.run as a timed model (Deadline) — triggering stops exactly at the earliest of max-duration less 10 ms, the trigger's own duration less 10 ms, cancellation and the limit (C05_deadline, C05_stop_le, C05_stop_earliest, C05_some_branch_fires), the wait is bounded by the completion timeout (C05_wait_bounded), a return that did not give up means everything in flight finished (C05_finished_unless_timeout) and giving up happens only after the full timeout (C05_gives_up_after_full_timeout). Tie: whole runs over modes x endings with goroutine diff and return-time bounds computed from the Deadline model; result.stress for the pre-Stop lock users. Regenerated control skeleton (MiniGo, RefineC05R/C05U/C18L/C08X): Run.run for every choice of the runtime's selects (every wait after the trigger returned offers the completion timeout; run returns only after completion or that timeout - D27), Run.Do's order (setup, run, progress runner stopped, totals, teardown, summary), the runner goroutine (as many invocations as ticks, nothing after the cancellation, close(stopped) last), runStage / users trigger / metrics goroutine / signal goroutine.",
  "note": "Partial by nature: real timers, the scheduler's fairness and goroutine exit are assumed and monitored on real runs (exploration in support); the deadline clause is proved on the timed model of the two selects (environment inputs: cancel instant, limit instant, drain function) and tied by stall-robust time bounds on real runs (150 ms / 1 s margins), so a shift of a few ms in the real code is only caught by the 10 ms-run case and the regenerated source of run().",
  "technique": "Lean 4 deadlock-freedom by inductive invariant + termination measure over a lock-protocol model; whole-run monitoring with scripted interleavings"}
 
